@@ -360,6 +360,13 @@ def gen_run(rng, i, enc, pick):
     # non-ASCII words long enough to enter the OMEN n-grams
     entries.append((rng.choice(T.NONASCII[enc]) + rng.choice(T.WORDS), rng.choice([1, 2, 3])))
     entries.append((" " + rng.choice(T.WORDS) + " ", 2))
+    if i % 4 == 1:
+        # terminals far longer than any everyday password (one run of 257-300 letters / digits / symbols): a length-indexed file
+        # of their own that config.ini names and both loaders read back
+        k = rng.randint(257, 300)
+        entries.append((rng.choice("qxz") * k + "1", 1))
+        entries.append((rng.choice(T.WORDS[:6]) + rng.choice("37") * (k + 3), 1))
+        entries.append((rng.choice(T.WORDS[:6]) + rng.choice("!$") * (k - 1), 2))
     entries = [(p, c) for p, c in entries if T.encodable(p, enc)]
     data = T.build_file(rng, entries, enc, "hex" if pick else rng.choice(["plain", "mixed"]), b"\n")
     return entries, data
@@ -458,6 +465,14 @@ def run(ctx):
             for k, c in getattr(P, attr).items():
                 rel = "%s/%d.txt" % (folder, k)
                 lines = T.expected_lines(c)
+                if rel not in rec.tree:
+                    vio.append({"sig": "C07:file-missing", "what": "the trainer holds %d value(s) of %s length %d in memory (e.g. %r...) but wrote no "
+                                "%s: an accepted training value is in no rules file (config.ini %s it)"
+                                % (len(c), folder, k, next(iter(c))[:24], rel,
+                                   "still names" if ("%d.txt" % k) in json.loads(_cfg(rd)[{"A": "BASE_A", "C": "CAPITALIZATION", "D": "BASE_D",
+                                                                                               "O": "BASE_O", "K": "BASE_K"}[letter]]["filenames"])
+                                   else "does not name"), "replay": dict(rep)})
+                    continue
                 G["write"].append((T.cpair(T.cpair(T.clist(lines, lambda vp: T.cpair(T.cs(vp[0]), T.cf(vp[1])), "(str * float)"),
                                                    T.repr_table([p for _, p in lines])), T.cs(text_of(rec.tree[rel], enc))),
                                    dict(info, rule_file=rel)))
